@@ -382,3 +382,107 @@ def with_forks(rng, ops, k=2, p=1.0):
     for q in pos:
         ops.insert(q, ("FORK",))
     return ops
+
+
+FLAG_VALS = [1, 1, 9001, 9002, 9003, 9004, 9005, 9006, 7]      # "true", "false", "0", "no", "FALSE", "1", "bootstrapped", arbitrary
+
+
+def gen_flag_trace(rng):
+    """C13 (first-writer-wins of the flag keys, bootstrap gate): the flag keys bootstrapped(3) / launched(2) / regions(5) / deployment id(1) written
+    first by a plain KV command with an unusual literal value ("false", "0", ...), finalized or not, with instance id 0 or not; then the
+    service-style finalized write, shard submissions (the gate must be closed whatever the value of the flag is), a launch batch (must be ignored
+    whenever the launched key exists, whoever wrote it), snapshot forks in between, lookups after every step"""
+    w = World(rng, nhosts=rng.randint(3, 4), nshards=rng.randint(1, 2))
+    ops = []
+    defs = w.shard_ops()
+    rng.shuffle(defs)
+    pre = rng.randint(0, len(defs))
+    ops += defs[:pre] + [("LS",)]
+    steps = []
+    for key in rng.sample([3, 2, 5, 1], rng.randint(1, 3)):
+        fin = rng.random() < 0.5
+        steps.append(("K", key, rng.choice(FLAG_VALS), rng.choice([0, 0, 5]), rng.randint(0, 2), rng.choice([0, 0, 5, 6]), fin))
+        if rng.random() < 0.6:
+            steps.append(("K", key, 1, 0, 0, 0, True))                       # what the service sends
+        if rng.random() < 0.3:
+            steps.append(("K", key, rng.choice(FLAG_VALS), rng.choice([0, 5, 6]), 0, rng.choice([0, 5]), rng.random() < 0.5))
+    rng.shuffle(steps)
+    for st in steps:
+        ops += [st, ("LK", st[1])]
+        if rng.random() < 0.25:
+            ops.append(("FORK",))
+    ops += defs[pre:] + [("S", 0, 77, 2, [1, 2, 3]), ("LS",)]
+    if rng.random() < 0.7:
+        ops += [("Q", w.launch_batch()), ("LK", 2)]
+        if rng.random() < 0.5:
+            ops += [("Q", w.launch_batch()), ("LK", 2)]
+    ops += [("S", 0, 78, 2, [4, 5]), ("LS",), ("LK", 3), ("LK", 2), ("H",)]
+    return ops
+
+
+def gen_launch_evolve_trace(rng):
+    """C03 / C09: a launch window in which a shard that was already fully reporting gets a NEW, not yet started member (membership change)
+    before the last shard completes: "launched" must be recomputed from the current view on every report, on every replica and on replicas
+    restored from a snapshot taken anywhere in between (snapshot forks after every phase)."""
+    w = World(rng, nhosts=rng.randint(4, 6), nshards=rng.randint(2, 3))
+    ops = w.shard_ops() + ticks(rng.choice([1, 2]))
+    ops += [("Q", w.launch_batch()), ("LK", 2)]
+    sids = sorted(w.hist)
+    first, rest = sids[0], sids[1:]
+
+    def reports_for(shards, skip_rid=None):
+        out = []
+        hosts = sorted({ad for s in shards for ad in w.hist[s][-1][1].values()})
+        rng.shuffle(hosts)
+        for a in hosts:
+            fr = full_report(w, a)
+            fr["infos"] = [ci for ci in fr["infos"] if ci["shard"] in shards and ci["replica"] != skip_rid]
+            fr["shard_ids"] = sorted({ci["shard"] for ci in fr["infos"]})
+            if fr["infos"]:
+                out += [("R", fr), ("LC",)]
+        return out
+    ops += ticks(rng.choice([1, 2, 3]))
+    ops += reports_for([first])                                  # shard `first` fully reporting
+    if rng.random() < 0.6:
+        ops.append(("FORK",))
+    ops += ticks(rng.choice([0, 1, 2]))
+    before = set(w.hist[first][-1][1])
+    w.evolve(first)                                              # membership change of `first`
+    added = sorted(set(w.hist[first][-1][1]) - before)
+    new_rid = added[0] if added else None
+    ops += reports_for([first], skip_rid=new_rid)                # old members report the new membership; the new replica is silent
+    if rng.random() < 0.7:
+        ops.append(("FORK",))
+    ops += ticks(rng.choice([0, 1, 2]))
+    ops += reports_for(rest)                                     # the remaining shards complete
+    if rng.random() < 0.5:
+        ops.append(("FORK",))
+    late = rng.choice([None, 2, LDT - 6, LDT + 2])
+    for t in range(LDT + 3):
+        ops.append(("T",))
+        if late is not None and t == late and new_rid is not None:
+            ops += reports_for([first])                          # the new replica finally reports
+        if rng.random() < 0.15:
+            ops.append(("LC",))
+    ops += [("LC",), ("H",), ("LS",), ("T",), ("LC",)]
+    return ops
+
+
+def gen_regions_trace(rng, vids=(101, 102, 103)):
+    """C03: the regions key written by plain (non-finalized) KV commands with VALID region specifications (value ids registered with the engine),
+    overwritten by its holder with another specification, SCHEDULER_CONTEXT looked up between the writes on replica A only or on all replicas,
+    snapshot forks in between: the Regions part of the answer must be a function of the applied commands only."""
+    w = World(rng, nhosts=rng.randint(3, 4), nshards=1)
+    ops = w.shard_ops()
+    inst = rng.choice([0, 5])
+    for i in range(rng.randint(2, 5)):
+        fin = (i >= 2 and rng.random() < 0.2)
+        ops.append(("K", 5, rng.choice(vids), inst, i, inst, fin))
+        if rng.random() < 0.7:
+            ops.append(("LC",))
+        if rng.random() < 0.5:
+            ops.append(("FORK",))
+        if rng.random() < 0.3:
+            ops += [("R", w.report(rng.choice(w.hosts))), ("LC",)]
+    ops += [("LC",), ("LK", 5), ("H",)]
+    return ops
